@@ -259,3 +259,95 @@ package bitmask
 //@   modifies bm.entries
 //@   ensures wf(bm.entries)
 //@   ensures forall(uint, b, 0, inf, mem(bm.entries, b) == (old(mem(bm.entries, b)) != (b == bit)))
+
+// inrun(r, x): x lies in run r. cov(e, n, x): x is covered by one of the first n runs of e
+// (recursive spec function given by its two defining equations; cov_sound and cov_complete prove by induction
+// that it means exists(i, 0, n, inrun(e[i], x))).
+//@ pure inrun(r connectedBitmaskEntry, x uint) bool = r.min <= x && x <= r.max
+//@ uninterp cov(e []connectedBitmaskEntry, n int, x uint) bool
+//@ axiom cov_zero: forall_slice(connectedBitmaskEntry, e, forall(uint, x, 0, inf, !cov(e, 0, x)))
+//@ axiom cov_step: forall_slice(connectedBitmaskEntry, e, forall(uint, x, 0, inf, forall_t(n, 0, inf, cov(e, n+1, x), cov(e, n+1, x) == (cov(e, n, x) || inrun(e[n], x)))))
+//@ lemma cov_sound induct n uses cov_zero, cov_step: forall_slice(connectedBitmaskEntry, e, forall(uint, x, 0, inf, implies(cov(e, n, x), exists(i, 0, n, inrun(e[i], x)))))
+//@ lemma cov_complete induct n uses cov_zero, cov_step: forall_slice(connectedBitmaskEntry, e, forall(uint, x, 0, inf, forall(i, 0, n, implies(inrun(e[i], x), cov(e, n, x)))))
+// two lists that agree on their first n runs cover the same bits with them
+//@ lemma cov_frame induct n uses cov_zero, cov_step: forall_slice(connectedBitmaskEntry, e1, forall_slice(connectedBitmaskEntry, e2, \
+//@     implies(forall(k, 0, n, e1[k] == e2[k]), forall(uint, x, 0, inf, cov(e1, n, x) == cov(e2, n, x)))))
+// pair form of the defining step (fires whenever both cov terms are present, whatever the shape of the index)
+//@ axiom cov_step2: forall_slice(connectedBitmaskEntry, e, forall(uint, x, 0, inf, forall(n, 0, inf, forall(k, 0, inf, implies(k == n+1, cov(e, k, x) == (cov(e, n, x) || inrun(e[n], x)))))))
+// downward form (unfolds every cov term; only used in lemma proofs)
+//@ axiom cov_down: forall_slice(connectedBitmaskEntry, e, forall(uint, x, 0, inf, forall_t(k, 1, inf, cov(e, k, x), cov(e, k, x) == (cov(e, k-1, x) || inrun(e[k-1], x)))))
+// r = p[:n] ++ q[:m] covers what p[:n] and q[:m] cover
+//@ lemma cov_concat induct m uses cov_zero, cov_down, cov_frame: forall_slice(connectedBitmaskEntry, r, forall_slice(connectedBitmaskEntry, p, forall_slice(connectedBitmaskEntry, q, forall(n, 0, inf, forall(t, 0, inf, \
+//@     implies(t == n + m && forall(k, 0, n, r[k] == p[k]) && forall(k, 0, m, r[n+k] == q[k]), forall(uint, x, 0, inf, cov(r, t, x) == (cov(p, n, x) || cov(q, m, x)))))))))
+// before(e, x): every run of e ends at least two below x (a run starting at x neither overlaps nor touches)
+//@ pure before(e []connectedBitmaskEntry, x uint) bool = forall(i, 0, len(e), e[i].max + 1 < x)
+
+//@ func (ConnectedBitmask).OrCopy
+//@   use cov_zero, cov_step, cov_step2, cov_frame, cov_sound, cov_complete
+//@   requires wf(bm.entries) && wf(other.entries)
+//@   ensures wf(result.entries)
+//@   ensures sub: forall(uint, x, 0, inf, implies(mem(result.entries, x), mem(bm.entries, x) || mem(other.entries, x)))
+//@   ensures supa: forall(uint, x, 0, inf, implies(mem(bm.entries, x), mem(result.entries, x)))
+//@   ensures supb: forall(uint, x, 0, inf, implies(mem(other.entries, x), mem(result.entries, x)))
+//@   loop 1 invariant 0 <= aIdx && aIdx <= len(bm.entries) && 0 <= bIdx && bIdx <= len(other.entries)
+//@   loop 1 invariant wf(new)
+//@   loop 1 invariant forall(j, aIdx, len(bm.entries), before(new, bm.entries[j].min))
+//@   loop 1 invariant forall(j, bIdx, len(other.entries), before(new, other.entries[j].min))
+//@   loop 1 invariant forall(uint, x, 0, inf, cov(new, len(new), x) == (cov(bm.entries, aIdx, x) || cov(other.entries, bIdx, x)))
+//@   loop 1 decreases len(bm.entries) - aIdx + len(other.entries) - bIdx
+//@   loop 2 invariant 0 <= aIdx && aIdx <= len(bm.entries) && 0 <= bIdx && bIdx <= len(other.entries)
+//@   loop 2 invariant aIdx + bIdx > at_loop(1, aIdx + bIdx)
+//@   loop 2 invariant n.min <= n.max && n.max < 4611686018427387904
+//@   loop 2 invariant before(new, n.min)
+//@   loop 2 invariant forall(j, aIdx, len(bm.entries), n.min < bm.entries[j].min)
+//@   loop 2 invariant forall(j, bIdx, len(other.entries), n.min < other.entries[j].min)
+//@   loop 2 invariant forall(uint, x, 0, inf, (cov(new, len(new), x) || inrun(n, x)) == (cov(bm.entries, aIdx, x) || cov(other.entries, bIdx, x)))
+//@   loop 2 decreases len(bm.entries) - aIdx + len(other.entries) - bIdx
+
+//@ func (ConnectedBitmask).AndCopy
+//@   requires wf(bm.entries) && wf(other.entries)
+//@   ensures wf(result.entries)
+//@   loop 1 invariant 0 <= aIdx && aIdx <= len(bm.entries) && 0 <= bIdx && bIdx <= len(other.entries)
+//@   loop 1 invariant wf(new)
+//@   loop 1 invariant forall(i, 0, len(new), (aIdx < len(bm.entries) && new[i].max + 1 < bm.entries[aIdx].min) || (bIdx < len(other.entries) && new[i].max + 1 < other.entries[bIdx].min) || aIdx >= len(bm.entries) || bIdx >= len(other.entries))
+//@   loop 1 decreases len(bm.entries) - aIdx + len(other.entries) - bIdx
+
+//@ func (ConnectedBitmask).SubCopy
+//@   requires wf(bm.entries) && wf(other.entries)
+//@   ensures wf(result.entries)
+//@   loop 1 invariant 0 <= aIdx && aIdx <= len(bm.entries) && 0 <= bIdx && bIdx <= len(other.entries)
+//@   loop 1 invariant wf(new)
+//@   loop 1 invariant forall(j, aIdx, len(bm.entries), before(new, bm.entries[j].min))
+//@   loop 1 decreases len(bm.entries) - aIdx
+//@   loop 2 invariant 0 <= aIdx && aIdx < len(bm.entries) && 0 <= bIdx && bIdx <= len(other.entries)
+//@   loop 2 invariant wf(new)
+//@   loop 2 invariant a.min <= a.max && a.max == bm.entries[aIdx].max && a.min >= bm.entries[aIdx].min
+//@   loop 2 invariant before(new, a.min)
+//@   loop 2 decreases len(other.entries) - bIdx
+
+// wf0(e): sorted, disjoint, non-empty runs that may touch (what XorCopy's two-pointer loops produce
+// before the final merge pass); upto(e, x): every run of e ends below x
+//@ pure wf0(e []connectedBitmaskEntry) bool = forall(i, 0, len(e), e[i].min <= e[i].max && e[i].max < 4611686018427387904) && \
+//@     forall(i, 0, len(e), forall(j, i+1, len(e), e[i].max < e[j].min))
+//@ pure upto(e []connectedBitmaskEntry, x uint) bool = forall(i, 0, len(e), e[i].max < x)
+
+//@ func (ConnectedBitmask).XorCopy
+//@   requires wf(bm.entries) && wf(other.entries)
+//@   ensures wf(result.entries)
+//@   loop 1 invariant 0 <= aIdx && aIdx <= len(bm.entries) && 0 <= bIdx && bIdx <= len(other.entries)
+//@   loop 1 invariant wf0(new)
+//@   loop 1 invariant forall(j, aIdx, len(bm.entries), upto(new, bm.entries[j].min))
+//@   loop 1 invariant forall(j, bIdx, len(other.entries), upto(new, other.entries[j].min))
+//@   loop 1 decreases len(bm.entries) - aIdx + len(other.entries) - bIdx
+//@   loop 2 invariant 0 <= aIdx && aIdx < len(bm.entries) && 0 <= bIdx && bIdx < len(other.entries)
+//@   loop 2 invariant aIdx + bIdx >= at_loop(1, aIdx + bIdx)
+//@   loop 2 invariant wf0(new)
+//@   loop 2 invariant a.min <= a.max && a.max == bm.entries[aIdx].max && a.min >= bm.entries[aIdx].min
+//@   loop 2 invariant b.min <= b.max && b.max == other.entries[bIdx].max && b.min >= other.entries[bIdx].min
+//@   loop 2 invariant upto(new, a.min) && upto(new, b.min)
+//@   loop 2 invariant (a.min == bm.entries[aIdx].min || a.min < b.min) && (b.min == other.entries[bIdx].min || b.min < a.min)
+//@   loop 2 decreases len(bm.entries) - aIdx + len(other.entries) - bIdx
+//@   loop 3 invariant -1 <= rangeindex && rangeindex < len(new) && wf0(new)
+//@   loop 3 invariant wf(res) && len(res) <= rangeindex + 1
+//@   loop 3 invariant implies(rangeindex >= 0, len(res) > 0 && res[len(res)-1].max == new[rangeindex].max)
+//@   loop 3 decreases len(new) - rangeindex
